@@ -175,6 +175,9 @@ func c06Inputs(root string) []c06Input {
 	// under the third exists in both entries
 	add("fs-three-remote-roots", g(1, "running", "example.com/only1.O", "0x1", "/rA/src/example.com/only1/o.go", 3)+g(2, "select", "example.com/b.B", "", "/rB/src/example.com/b/b.go", 4)+g(3, "select", "example.com/a.A", "0x2", "/rC/src/example.com/a/a.go", 5), fsOpts("gp1", "gp2"), true)
 	add("fs-three-remote-roots-reversed", g(1, "running", "example.com/only1.O", "0x1", "/rA/src/example.com/only1/o.go", 3)+g(2, "select", "example.com/b.B", "", "/rB/src/example.com/b/b.go", 4)+g(3, "select", "example.com/a.A", "0x2", "/rC/src/example.com/a/a.go", 5), fsOpts("gp2", "gp1"), true)
+	// a race report whose creation stacks (whole stacks there) are the only place where the
+	// nested modules' files appear
+	add("fs-race-creation-nested-modules", "==================\nWARNING: DATA RACE\nWrite at 0x00c000014100 by goroutine 7:\n  main.w()\n      "+R+"/run/main.go:5 +0x3a\n\nPrevious read at 0x00c000014100 by goroutine 8:\n  main.r()\n      "+R+"/run/main.go:9 +0x3a\n\nGoroutine 7 (running) created at:\n  example.com/m/sub.Y()\n      "+R+"/m/sub/y.go:11 +0x1\n  example.com/m.X()\n      "+R+"/m/x.go:10 +0x1\n  example.com/m/sub/deep.Z()\n      "+R+"/m/sub/deep/z.go:12 +0x1\n\nGoroutine 8 (finished) created at:\n  example.com/m2.W()\n      "+R+"/m2/w.go:13 +0x1\n  example.com/m.X()\n      "+R+"/m/x.go:10 +0x1\n==================\n", fsOpts("gp1"), true)
 	add("fs-gomod-without-module-line", g(1, "running", "example.com/m/sub/deep/tools/gen.G", "0x1", R+"/m/sub/deep/tools/gen/g.go", 3)+g(2, "select", "example.com/m/sub/deep.Z", "0x3", R+"/m/sub/deep/z.go", 12), fsOpts("gp1"), true)
 	add("fs-goroot-other-remote", g(1, "running", "fmt.Println", "", "/other/go/src/fmt/print.go", 3)+g(2, "select", "nosuch.F", "", "/remote/go/src/nosuch/zz.go", 3)+g(3, "select", "example.com/a.A", "", "/r2/src/example.com/a/a.go", 3), fsOpts("gp1", "gp2"), true)
 	return in
@@ -597,4 +600,68 @@ func TestVerifC06Agg(t *testing.T) {
 		}
 	}
 	r.Add("naming_permutation_vectors", nameVectors)
+}
+
+// TestVerifC06OptsReuse: the result depends on the *values* in the options, not on what
+// the same Opts object was used for before: for every ordered pair (x, y) of the
+// file-system inputs, x is scanned with an Opts value which is then overwritten in place
+// with y's settings (same object, slices updated element by element where the lengths
+// allow) and used to scan y: the digest must be that of y under freshly built options.
+func TestVerifC06OptsReuse(t *testing.T) {
+	r := h.Start("C06")
+	defer r.Finish(func(s string) { t.Error(s) })
+	if r.ReplayFile() != nil {
+		return
+	}
+	root, err := os.MkdirTemp(os.Getenv("VERIF_SCRATCH"), "c06o")
+	if err != nil {
+		t.Fatal(err)
+	}
+	defer os.RemoveAll(root)
+	c06FS(root)
+	inputs := c06Inputs(root)
+	digestWith := func(in *c06Input, o *Opts) string {
+		res := scanOnce(bytes.NewReader(in.text), o)
+		if res.panicked != "" {
+			return "panic: " + res.panicked
+		}
+		d := fmt.Sprintf("err=%v\n%s", res.err, canonSnapshot(res.snap))
+		if res.snap != nil {
+			d += "\n" + describeBuckets(res.snap.Aggregate(AnyPointer))
+		}
+		return strings.ReplaceAll(d, root, "$ROOT")
+	}
+	seq := 0
+	for xi := range inputs {
+		for yi := range inputs {
+			seq++
+			if !r.MineIdx(seq) || r.Expired() || !inputs[xi].fs || !inputs[yi].fs {
+				continue
+			}
+			x, y := &inputs[xi], &inputs[yi]
+			key := fmt.Sprintf("opts-reuse %s then %s", x.name, y.name)
+			v := r.Check(func() *h.Viol {
+				want := digestWith(y, y.opts(root))
+				o := x.opts(root)
+				_ = digestWith(x, o)
+				yo := y.opts(root)
+				// overwrite in place: same object, same backing arrays where they fit
+				o.LocalGOROOT, o.GuessPaths, o.AnalyzeSources, o.NameArguments = yo.LocalGOROOT, yo.GuessPaths, yo.AnalyzeSources, yo.NameArguments
+				if len(o.LocalGOPATHs) == len(yo.LocalGOPATHs) {
+					copy(o.LocalGOPATHs, yo.LocalGOPATHs)
+				} else {
+					o.LocalGOPATHs = yo.LocalGOPATHs
+				}
+				if got := digestWith(y, o); got != want {
+					return &h.Viol{Fingerprint: "C06/depends-on-earlier-use-of-the-options:" + y.name, Summary: fmt.Sprintf("input %s scanned with an Opts value that was used for %s before and then overwritten with the right settings differs from its scan with fresh options", y.name, x.name), Key: key, Kind: "opts-reuse", Expected: trunc(want), Observed: trunc(got)}
+				}
+				return nil
+			})
+			o := "ok"
+			if v != nil {
+				o = v.Fingerprint
+			}
+			r.Record(key, xi != yi, o)
+		}
+	}
 }
